@@ -83,6 +83,10 @@ def outcomes(case, max_states=300000):
             init_objs.append(("e",))
         elif k == "o":
             init_objs.append(("o", 0, None))          # state 0 none / 1 running / 2 done ; runner
+        elif k == "b":
+            if int(o[1:]) < 1:
+                raise Unsupported("barrier of size 0")
+            init_objs.append(("b", int(o[1:]), (), ()))   # bound, tasks that arrived and wait, tasks released and not yet returned
         else:
             raise Unsupported(o)
     # task = (frames, handles, results, parked) ; frames = tuple of (body, pc, once_obj or -1)
@@ -293,6 +297,19 @@ def outcomes(case, max_states=300000):
                     frames = tk[0] + ((j, 0, o),)
                     yield put((frames, tk[1], tk[2], False), setobj(o, ("o", 1, t))), True
                 # stt == 1: another task is running the initialiser: not enabled
+            elif k2 == "bw":
+                # Barrier::wait is two visible steps: the arrival (the arrival that completes the group releases it and is the
+                # leader) and, for the others, the return once released
+                o = int(op[2:])
+                _, bound, waiting, released = O[o]
+                if t in released:
+                    yield put(advance(tk, "27:0"), setobj(o, ("b", bound, waiting, tuple(x for x in released if x != t)))), True
+                elif t in waiting:
+                    pass
+                elif len(waiting) + 1 >= bound:
+                    yield put(advance(tk, "27:1"), setobj(o, ("b", bound, (), released + waiting))), True
+                else:
+                    yield put(tk, setobj(o, ("b", bound, waiting + (t,), released))), True
             elif k2 == "ic":
                 o = int(op[2:])
                 yield put(advance(tk, "29:%d" % (1 if O[o][1] == 2 else 0))), True
